@@ -1165,6 +1165,21 @@ class Symbolic(
     object.__setattr__(self, name, value)
     return self
 
+  def _invalidate_content_cache(self) -> None:
+    """Resets the content-based caches of this node and of all its ancestors.
+
+    Called by every code path that changes the content of this node, whether
+    or not a change notification follows (it may be skipped or disabled), so
+    that `sym_missing`, `sym_nondefault` and `sym_puresymbolic` never report
+    values computed from previous content.
+    """
+    node = self
+    while node is not None:
+      node._set_raw_attr('_sym_puresymbolic', None)       # pylint: disable=protected-access
+      node._set_raw_attr('_sym_missing_values', None)     # pylint: disable=protected-access
+      node._set_raw_attr('_sym_nondefault_values', None)  # pylint: disable=protected-access
+      node = node.sym_parent
+
   def _relocate_if_symbolic(self, key: Union[str, int], value: Any) -> Any:
     """Relocate if a symbolic value is to be inserted as member.
 
